@@ -19,6 +19,11 @@ VH = os.path.join(HARNESS, "target", "release", "vh")
 NCPU = os.cpu_count() or 4
 
 
+import threading
+_META_N = 0
+_META_LOCK = threading.Lock()
+
+
 class ToolError(Exception):
     pass
 
@@ -108,7 +113,11 @@ def run_tlc(module, cfg, prop, env=None, workers=None, timeout=1800, simulate=No
     e["JAVA_TOOL_OPTIONS"] = jopts
     if env:
         e.update(env)
-    meta = os.path.join(workdir(prop), "tlc_" + re.sub(r"\W", "_", os.path.basename(cfg)) + f"_{os.getpid()}")
+    global _META_N
+    with _META_LOCK:
+        _META_N += 1
+        mn = _META_N
+    meta = os.path.join(workdir(prop), "tlc_" + re.sub(r"\W", "_", os.path.basename(cfg)) + f"_{os.getpid()}_{mn}")
     cmd = ["timeout", str(timeout), "java"]
     if heap:
         cmd += [f"-Xmx{heap}"]
@@ -246,6 +255,31 @@ def validate_runs(rows, module, cfg, prop, tag, max_rejects=10, start_ev="reset"
         f"{len(remaining)} runs were not validated")
     stats["truncated"] = True
     return [], rejected, stats
+
+
+def validate_many(row_sets, module, cfg, prop, tag, max_rejects=6, start_ev="reset", env=None,
+                  parallel=None):
+    """Validate several independent traces concurrently (one single-worker TLC each).
+    Returns (good_runs, rejected, merged stats)."""
+    from concurrent.futures import ThreadPoolExecutor
+    good, rejected = [], []
+    stats = {"generated": 0, "distinct": 0, "actions": {}}
+
+    def one(i_rows):
+        i, rows = i_rows
+        return validate_runs(rows, module, cfg, prop, f"{tag}{i}", max_rejects=max_rejects,
+                             start_ev=start_ev, env=env)
+    with ThreadPoolExecutor(max_workers=parallel or max(2, NCPU // 2)) as ex:
+        for g, r, st in ex.map(one, list(enumerate(row_sets))):
+            good.extend(g)
+            rejected.extend(r)
+            stats["generated"] += st["generated"]
+            stats["distinct"] += st["distinct"]
+            if st.get("truncated"):
+                stats["truncated"] = True
+            for k, v in st["actions"].items():
+                stats["actions"][k] = stats["actions"].get(k, 0) + v
+    return good, rejected, stats
 
 
 # ---------------------------------------------------------------------------
